@@ -904,4 +904,254 @@ Proof.
     split; [|assumption]. apply (group_spec_ext L prots g Hext Hs).
 Qed.
 
+(* ================================================================== keys of the peptide dict *)
+Lemma lookup_nonkey : forall pep (pm : gr_pmap P), ~ In pep (map fst pm) -> lookup pep pm = [].
+Proof.
+  intros pep pm. induction pm as [|[k v] r IH]; simpl; intros H; [reflexivity|].
+  destruct (Nat.eqb pep k) eqn:E.
+  - apply Nat.eqb_eq in E. exfalso. apply H. left. congruence.
+  - apply IH. intros H2. apply H. right. assumption.
+Qed.
+
+Lemma update_keys_in : forall pep v (pm : gr_pmap P),
+  In pep (map fst pm) -> map fst (update pep v pm) = map fst pm.
+Proof.
+  intros pep v pm. induction pm as [|[k w] r IH]; simpl; intros H; [contradiction|].
+  destruct (Nat.eqb pep k) eqn:E; simpl; [reflexivity|].
+  f_equal. apply IH. destruct H as [H|H]; [|assumption].
+  subst k. rewrite Nat.eqb_refl in E. discriminate.
+Qed.
+
+Lemma update_keys_notin : forall pep v (pm : gr_pmap P),
+  ~ In pep (map fst pm) -> map fst (update pep v pm) = map fst pm ++ [pep].
+Proof.
+  intros pep v pm. induction pm as [|[k w] r IH]; simpl; intros H; [reflexivity|].
+  destruct (Nat.eqb pep k) eqn:E; simpl.
+  - apply Nat.eqb_eq in E. exfalso. apply H. left. congruence.
+  - f_equal. apply IH. intros H2. apply H. right. assumption.
+Qed.
+
+Lemma lookup_in_key : forall pep x (pm : gr_pmap P), In x (lookup pep pm) -> In pep (map fst pm).
+Proof.
+  intros pep x pm Hx. destruct (in_dec Nat.eq_dec pep (map fst pm)) as [H|H]; [assumption|].
+  rewrite (lookup_nonkey pep pm H) in Hx. destruct Hx.
+Qed.
+
+Lemma update_peps_keys : forall m p nw S pm pm',
+  gr_update_peps P peqb m p nw S pm = Ok pm' -> map fst pm' = map fst pm.
+Proof.
+  intros m p nw S. induction S as [|pep r IH]; intros pm pm' H; simpl in H.
+  - injection H as H. subst. reflexivity.
+  - destruct (memn m (lookup pep pm)) eqn:E; [|discriminate].
+    apply memn_spec in E. apply lookup_in_key in E.
+    rewrite (IH _ _ H). apply update_keys_in. assumption.
+Qed.
+
+Lemma rename_keys : forall p st m st',
+  gr_rename P peqb p st m = Ok st' -> map fst (snd st') = map fst (snd st).
+Proof.
+  intros p [g pm] m st' H. unfold gr_rename in H. simpl in H.
+  destruct (pop m g) as [[gs g']|]; [|discriminate].
+  destruct (gr_update_peps P peqb m p (m ++ [p]) gs pm) as [pm1|e] eqn:E; [|discriminate].
+  injection H as H. subst st'. simpl. eapply update_peps_keys. exact E.
+Qed.
+
+Lemma renames_keys : forall p ms st st',
+  gr_renames P peqb p st ms = Ok st' -> map fst (snd st') = map fst (snd st).
+Proof.
+  intros p ms. induction ms as [|m r IH]; intros st st' H; simpl in H.
+  - injection H as H. subst. reflexivity.
+  - destruct (gr_rename P peqb p st m) as [st1|e] eqn:E; [|discriminate].
+    rewrite (IH _ _ H). eapply rename_keys. exact E.
+Qed.
+
+Lemma step_keys : forall pi st q st',
+  gr_step P peqb pi st q = Ok st' -> map fst (snd st') = map fst (snd st).
+Proof.
+  intros pi [g pm] [p peps] st' H. unfold gr_step in H. simpl in H.
+  destruct g as [|e g0].
+  - injection H as H. subst. reflexivity.
+  - destruct (gr_matches P peqb pi p peps (e :: g0) pm) as [ms|er]; [|discriminate].
+    destruct ms as [|m0 ms'].
+    + injection H as H. subst. reflexivity.
+    + apply renames_keys in H. exact H.
+Qed.
+
+Lemma loop_keys : forall pi qs st st',
+  gr_loop P peqb pi st qs = Ok st' -> map fst (snd st') = map fst (snd st).
+Proof.
+  intros pi qs. induction qs as [|q r IH]; intros st st' H; simpl in H.
+  - injection H as H. subst. reflexivity.
+  - destruct (gr_step P peqb pi st q) as [st1|e] eqn:E; [|discriminate].
+    rewrite (IH _ _ H). eapply step_keys. exact E.
+Qed.
+
+Lemma lookup_in_pm : forall (pm : gr_pmap P) pep v, NoDup (map fst pm) ->
+  (In (pep, v) pm <-> In pep (map fst pm) /\ lookup pep pm = v).
+Proof.
+  intros pm pep v. induction pm as [|[k w] r IH]; simpl; intros Hnd.
+  - split; [intros []|intros [[] _]].
+  - inversion Hnd as [|? ? Hk Hr]; subst. destruct (Nat.eqb pep k) eqn:E.
+    + apply Nat.eqb_eq in E. subst k. split.
+      * intros [H|H]; [injection H as H; subst; split; [left|]; reflexivity|].
+        exfalso. apply Hk. change pep with (fst (pep, v)). apply in_map. assumption.
+      * intros [_ H]. left. congruence.
+    + assert (Hne : k <> pep) by (intros E2; subst; rewrite Nat.eqb_refl in E; discriminate).
+      split.
+      * intros [H|H]; [congruence|]. apply (IH Hr) in H. destruct H as [H1 H2]. split; [right|]; assumption.
+      * intros [[H|H] H2]; [contradiction|]. right. apply (IH Hr). split; assumption.
+Qed.
+
+(* ================================================================== read_fasta: the initial maps *)
+(* the proteins that yield at least one peptide, with their peptide sets, in entry order *)
+Definition clean (entries : list (P * list nat)) : list (P * list nat) :=
+  flat_map (fun e => match gr_dedup (snd e) with [] => [] | peps => [(fst e, peps)] end) entries.
+
+Lemma clean_names : forall entries p, In p (map fst (clean entries)) -> In p (map fst entries).
+Proof.
+  induction entries as [|[q raw] r IH]; intros p H; [contradiction|].
+  unfold clean in H. simpl in H. rewrite map_app in H. apply in_app_iff in H. destruct H as [H|H].
+  - left. simpl. destruct (gr_dedup raw); simpl in H; [contradiction|]. destruct H as [H|[]]. assumption.
+  - right. apply IH. assumption.
+Qed.
+
+Lemma clean_wf : forall entries, NoDup (map fst entries) -> wf_prots (clean entries).
+Proof.
+  intros entries Hnd. split.
+  - induction entries as [|[q raw] r IH]; [constructor|].
+    simpl in Hnd. inversion Hnd as [|? ? Hq Hr]; subst.
+    unfold clean. simpl. rewrite map_app. fold (clean r).
+    destruct (gr_dedup raw) as [|a l]; simpl; [apply IH; assumption|].
+    constructor; [|apply IH; assumption]. intros H. apply Hq. apply clean_names. assumption.
+  - intros p peps Hin. unfold clean in Hin. apply in_flat_map in Hin.
+    destruct Hin as [[q raw] [_ Hin]]. simpl in Hin.
+    destruct (gr_dedup raw) as [|a l] eqn:E; [contradiction|].
+    destruct Hin as [Hin|[]]. injection Hin as E1 E2. subst p peps. split.
+    + rewrite <- E. apply dedup_nodup.
+    + discriminate.
+Qed.
+
+Lemma prot_set_fresh : forall p peps d, ~ In p (map fst d) ->
+  gr_prot_set P peqb p peps d = d ++ [(p, peps)].
+Proof.
+  intros p peps d. induction d as [|[k w] r IH]; simpl; intros H; [reflexivity|].
+  destruct (peqb_spec p k) as [E|E].
+  - exfalso. apply H. left. congruence.
+  - f_equal. apply IH. intros H2. apply H. right. assumption.
+Qed.
+
+Lemma add_name_lookup : forall p pm a pep,
+  lookup pep (gr_add_name P peqb p pm a) =
+  if Nat.eqb pep a then set_add [p] (lookup a pm) else lookup pep pm.
+Proof.
+  intros p pm a pep. unfold gr_add_name. destruct (Nat.eqb pep a) eqn:E.
+  - apply Nat.eqb_eq in E. subst. apply lookup_update_same.
+  - apply lookup_update_other. intros E2. subst. rewrite Nat.eqb_refl in E. discriminate.
+Qed.
+
+Lemma fold_add_lookup : forall p peps pm pep x,
+  In x (lookup pep (fold_left (gr_add_name P peqb p) peps pm)) <->
+  In x (lookup pep pm) \/ (x = [p] /\ In pep peps).
+Proof.
+  intros p peps. induction peps as [|a r IH]; intros pm pep x; simpl.
+  - split; [left; assumption|intros [H|[_ []]]; assumption].
+  - rewrite IH. rewrite add_name_lookup. destruct (Nat.eqb pep a) eqn:E.
+    + apply Nat.eqb_eq in E. subst a. rewrite set_add_in. split.
+      * intros [[H|H]|[H1 H2]]; [right; split; [assumption|left; reflexivity]|left; assumption|right; split; [assumption|right; assumption]].
+      * intros [H|[H1 [H2|H2]]]; [left; right; assumption|left; left; assumption|right; split; assumption].
+    + split.
+      * intros [H|[H1 H2]]; [left; assumption|right; split; [assumption|right; assumption]].
+      * intros [H|[H1 [H2|H2]]]; [left; assumption| |right; split; assumption].
+        subst a. rewrite Nat.eqb_refl in E. discriminate.
+Qed.
+
+Lemma fold_add_nodup : forall p peps pm, pm_nodup pm ->
+  pm_nodup (fold_left (gr_add_name P peqb p) peps pm).
+Proof.
+  intros p peps. induction peps as [|a r IH]; intros pm H; simpl; [assumption|].
+  apply IH. intros pep. rewrite add_name_lookup. destruct (Nat.eqb pep a); [|apply H].
+  apply set_add_nodup. apply H.
+Qed.
+
+Lemma add_name_keys : forall p (pm : gr_pmap P) a,
+  (NoDup (map fst pm) -> NoDup (map fst (gr_add_name P peqb p pm a))) /\
+  (forall k, In k (map fst (gr_add_name P peqb p pm a)) <-> In k (map fst pm) \/ k = a).
+Proof.
+  intros p pm a. unfold gr_add_name.
+  destruct (in_dec Nat.eq_dec a (map fst pm)) as [H|H].
+  - rewrite update_keys_in by assumption. split; [tauto|].
+    intros k. split; [tauto|]. intros [H2|H2]; [assumption|subst; assumption].
+  - rewrite update_keys_notin by assumption. split.
+    + intros Hnd. apply nodup_snoc; assumption.
+    + intros k. rewrite in_app_iff. simpl. split; intros [H2|H2]; try tauto.
+      * destruct H2 as [H2|[]]. right. congruence.
+      * right. left. congruence.
+Qed.
+
+Lemma fold_add_keys : forall p peps (pm : gr_pmap P),
+  (NoDup (map fst pm) -> NoDup (map fst (fold_left (gr_add_name P peqb p) peps pm))) /\
+  (forall k, In k (map fst (fold_left (gr_add_name P peqb p) peps pm)) <->
+             In k (map fst pm) \/ In k peps).
+Proof.
+  intros p peps. induction peps as [|a r IH]; intros pm; simpl.
+  - split; [tauto|]. intros k. tauto.
+  - destruct (IH (gr_add_name P peqb p pm a)) as [IH1 IH2].
+    destruct (add_name_keys p pm a) as [A1 A2]. split.
+    + intros H. apply IH1. apply A1. assumption.
+    + intros k. rewrite IH2. rewrite A2. split; intros H; intuition congruence.
+Qed.
+
+Lemma build_ok : forall entries d pm d' pm',
+  NoDup (map fst entries) -> (forall p, In p (map fst entries) -> ~ In p (map fst d)) ->
+  gr_build P peqb entries d pm = (d', pm') ->
+  d' = d ++ clean entries /\
+  (forall pep x, In x (lookup pep pm') <->
+     In x (lookup pep pm) \/ exists p peps, In (p, peps) (clean entries) /\ x = [p] /\ In pep peps) /\
+  (pm_nodup pm -> pm_nodup pm') /\
+  (NoDup (map fst pm) -> NoDup (map fst pm')) /\
+  (forall k, In k (map fst pm') <->
+     In k (map fst pm) \/ exists p peps, In (p, peps) (clean entries) /\ In k peps).
+Proof.
+  induction entries as [|[p raw] r IH]; intros d pm d' pm' Hnd Hfresh Hrun.
+  - simpl in Hrun. injection Hrun as E1 E2. subst d' pm'. simpl. rewrite app_nil_r.
+    split; [reflexivity|]. split; [|split; [tauto|split; [tauto|]]].
+    + intros pep x. split; [left; assumption|]. intros [H|[q [peps [[] _]]]]. assumption.
+    + intros k. split; [left; assumption|]. intros [H|[q [peps [[] _]]]]. assumption.
+  - simpl in Hnd. inversion Hnd as [|? ? Hp Hr]; subst.
+    simpl in Hrun. unfold clean. simpl. fold (clean r).
+    destruct (gr_dedup raw) as [|a l] eqn:Ed.
+    + simpl. apply (IH d pm d' pm' Hr); [|assumption].
+      intros q Hq. apply Hfresh. right. assumption.
+    + set (peps := a :: l) in *.
+      rewrite prot_set_fresh in Hrun by (apply Hfresh; left; reflexivity).
+      destruct (IH (d ++ [(p, peps)]) (fold_left (gr_add_name P peqb p) peps pm) d' pm' Hr)
+        as [I1 [I2 [I3 [I4 I5]]]]; [|exact Hrun|].
+      { intros q Hq. rewrite map_app. rewrite in_app_iff. simpl. intros [H|[H|[]]].
+        - apply (Hfresh q); [right; assumption|assumption].
+        - subst q. contradiction. }
+      destruct (fold_add_keys p peps pm) as [K1 K2].
+      split; [rewrite I1; rewrite <- app_assoc; reflexivity|].
+      split; [|split; [|split]].
+      * intros pep x. rewrite I2. rewrite fold_add_lookup. simpl. split.
+        -- intros [[H|[H1 H2]]|[q [pq [H1 H2]]]].
+           ++ left. assumption.
+           ++ right. exists p, peps. split; [left; reflexivity|split; assumption].
+           ++ right. exists q, pq. split; [right; assumption|assumption].
+        -- intros [H|[q [pq [[H1|H1] H2]]]].
+           ++ left. left. assumption.
+           ++ injection H1 as E1 E2. subst q pq. left. right. assumption.
+           ++ right. exists q, pq. split; assumption.
+      * intros H. apply I3. apply fold_add_nodup. assumption.
+      * intros H. apply I4. apply K1. assumption.
+      * intros k. rewrite I5. rewrite K2. simpl. split.
+        -- intros [[H|H]|[q [pq [H1 H2]]]].
+           ++ left. assumption.
+           ++ right. exists p, peps. split; [left; reflexivity|assumption].
+           ++ right. exists q, pq. split; [right; assumption|assumption].
+        -- intros [H|[q [pq [[H1|H1] H2]]]].
+           ++ left. left. assumption.
+           ++ injection H1 as E1 E2. subst q pq. left. right. assumption.
+           ++ right. exists q, pq. split; assumption.
+Qed.
+
 End GroupingProofs.
